@@ -48,19 +48,24 @@ ASSUMPTIONS = ['PRNG contracts: random_sample/rand in [0,1), randint(low, high) 
                '|sin| <= 1 and |exp(it)| = 1 for the values np.sin / np.exp return (checked on every recorded value)',
                'norm ranges are non-negative; scipy-based samplers (orthogonal, unitary) are outside the claim',
                'the configuration of a sampler is not mutated between drawing a random function and calling it']
-LEVEL_TEXT = ('Theorems for all parameters, dimensions and oracle answers within their contracts: real/integer intervals (any order of '
-              'endpoints, degenerate, every integer attainable), complex rectangles and sectors (oracle exp and genuine cos/sin over R), '
-              'discrete sets and function lists, random functions (arity, output dimension, realness, |f - center| <= amplitude*input_dim, '
-              'hence the declared bound for unary functions; the declared bound is REFUTED for input_dim >= 2), vectors/matrices/tensors '
-              '(norm, triangularity, realness), identity multiples, and the whole SquareMatrices pipeline for every dimension and every '
-              'accepted option combination (symmetry, tracelessness, determinant 1 exactly, determinant 0 exactly or below the code\'s own '
-              '5e-13 cut-off, norm, realness, at most 100 passes, unreachable branches unreachable). Interval/integer/constructor/'
-              'apply_symmetry/triangular/coefficient-formula statements are on definitions regenerated from the source on every run.')
-LEVEL_NOTE = ('Partial: exact (Gaussian) rational arithmetic with the PRNG and numpy/LAPACK answers as contract-bound oracles; floating-point '
-              'linear algebra is observed (residuals checked on every recorded answer), not verified; orthogonal/unitary samplers need scipy '
-              '(absent). Real-analysis statements use Coq Reals (sig_forall_dec, sig_not_dec, functional_extensionality_dep, classic).')
-TECHNIQUE = ('Coq proof (Q / Gaussian rationals, Laplace determinant, setoid ring/field, Reals for sin/cos) + source-to-Gallina translator '
-             '+ vm_compute correspondence on recorded oracle answers + exact-arithmetic property oracle')
+LEVEL_TEXT = ('Theorems for all parameters, all dimensions and all oracle answers within their contracts: real/integer intervals (any order of '
+              'endpoints, degenerate, every point / integer attainable), complex rectangles and sectors (np.exp as a unit-modulus oracle, and the '
+              'genuine cos/sin over R), discrete sets and function lists (only listed members, each attainable), random functions (arity, '
+              'output dimension, realness, |f - center| <= amplitude*input_dim, hence the declared bound for unary functions; the declared '
+              'bound is REFUTED for input_dim >= 2, with an oracle-sine and a genuine-sine witness), vectors/matrices/tensors (norm, '
+              'triangularity, realness), identity multiples, and the whole SquareMatrices pipeline for every dimension and every accepted '
+              'option combination: requested symmetry, trace 0, determinant exactly 1, determinant exactly 0 (or below the code\'s own 5e-13 '
+              'cut-off when its early return is taken), norm in the declared range, realness, at most 100 passes, the assert and the '
+              '"Unknown class configuration" branch unreachable. The linear algebra is proved on the executable Laplace determinant: '
+              'det(cA) = c^n det A, transpose invariance, hermitian => real determinant, antisymmetric of odd dimension => singular. '
+              'Interval / integer / constructor / apply_symmetry / triangular / coefficient-formula statements are on definitions '
+              'regenerated from the source on every run (Gen/Sampler.v + bridge).')
+LEVEL_NOTE = ('Partial: exact (Gaussian) rational arithmetic with the PRNG and numpy/LAPACK answers (det, n-th root, eigenvalues, norm, sin, exp) '
+              'as contract-bound oracles; floating-point linear algebra is observed (residuals checked in Coq on every recorded answer), not '
+              'verified; orthogonal/unitary samplers need scipy (absent). Everything except the four real-analysis statements is closed under '
+              'the global context; those use Coq Reals (sig_forall_dec, sig_not_dec, functional_extensionality_dep, classic).')
+TECHNIQUE = ('Coq proof (Q / Gaussian rationals with a setoid field, Laplace determinant by induction, Reals for sin/cos) + source-to-Gallina '
+             'translator + vm_compute correspondence on recorded oracle answers + exact integer-arithmetic property oracle')
 DESIGN_REF = 'DESIGN.md section 3, C12'
 
 FINDING_HINT = 'RandomFunction.gen_sample'     # call site of the one known defect (see classify_known)
@@ -197,6 +202,11 @@ Fixpoint trace_eqb (a b : list okind) : bool :=
 Fixpoint traces_eqb (a b : list (list okind)) : bool :=
   match a, b with [], [] => true | x :: a', y :: b' => trace_eqb x y && traces_eqb a' b' | _, _ => false end.
 
+(* determinant for the residual checks: Gaussian-integer expansion (C12_fast_determinant), reduced Laplace
+   expansion (C12_reduced_determinant) as a fall-back *)
+Definition det_of (dim : nat) (W : fmat) : C :=
+  match fast_det dim W with Some d => d | None => mdetr dim W end.
+
 Definition det_scale (dim : nat) (W : fmat) : Q :=
   let s := 1 + rows_scale (to_rows dim dim W) in Qred (qpow_nat s dim).
 
@@ -218,7 +228,7 @@ Definition last_pass_ok (c : qcase) (cplx : bool) (M : fmat) : bool :=
        | DOne =>
            (* det answer is the determinant; the root answer is an n-th root of what the model hands to np.power; with
               these two, det M = 1 is C12_square_matrices_sound *)
-           cclose_rel eps9 (a_det a) (mdetr dim W) (det_scale dim W)
+           cclose_rel eps9 (a_det a) (det_of dim W) (det_scale dim W)
            && (let tgt := if negb cplx || symm_eqb (s_sym c) SHerm || symm_eqb (s_sym c) SAHerm
                           then (if Qltb 0 (cre (a_det a)) then cofQ (cre (a_det a)) else cofQ (- cre (a_det a)))
                           else a_det a in
@@ -226,9 +236,9 @@ Definition last_pass_ok (c : qcase) (cplx : bool) (M : fmat) : bool :=
        | DZero =>
            (* det answer is the determinant; the matrix handed to the final normalisation has determinant 0 (this is
               where the eigenvalue answers are checked); M is a real multiple of it by C12_square_matrices_sound *)
-           cclose_rel eps9 (a_det a) (mdetr dim W) (det_scale dim W)
+           cclose_rel eps9 (a_det a) (det_of dim W) (det_scale dim W)
            && match make_det_zero (s_sym c) cplx dim a Wm with
-              | Done Z _ => let Zm := materialize dim dim Z in cclose_rel eps9 (mdetr dim Zm) c0 (det_scale dim Zm)
+              | Done Z _ => let Zm := materialize dim dim Z in cclose_rel eps9 (det_of dim Zm) c0 (det_scale dim Zm)
               | _ => false
               end
        end
@@ -846,8 +856,8 @@ def run_random_functions(ctx, res, rng, rec, terms, metas):
     run_rf_corpus(res, rec)
     for cfg in grid:
         size = cfg['input_dim'] * cfg['output_dim'] * cfg['num_terms']
-        run_rf_config(ctx, res, rng, rec, cfg, 3 if quick else 6, 2 if quick else 3, 25 if quick else 50, terms, metas,
-                      coq_draws=(1 if size > 12 else 2) if quick else (2 if size > 12 else 3))
+        run_rf_config(ctx, res, rng, rec, cfg, 3 if quick else 6, 2 if quick else 3, 40 if quick else 60, terms, metas,
+                      coq_draws=1 if quick else (2 if size > 12 else 3))
     res.distribution['random_function_configs'] = len(grid)
 
 
@@ -1244,8 +1254,8 @@ def run_squares(ctx, res, rng, rec, terms, metas):
     from mitxgraders import SquareMatrices
     from mitxgraders.exceptions import ConfigError
     quick = ctx['tier'] == 'quick' and not ctx['escalate']
-    n_oracle = 20 if quick else 40
-    n_coq = 2 if quick else 4
+    n_oracle = 30 if quick else 60
+    n_coq = 1 if quick else 4
     accepted = rejected = 0
     dist = {}
     for k, base in enumerate(square_grid((2, 3, 4, 5))):
@@ -1274,12 +1284,15 @@ def run_squares(ctx, res, rng, rec, terms, metas):
             if st != 'ret':
                 res.witnesses.append({'key': 'square-raise:%r' % (base,), 'kind': 'square', 'cfg': repr(cfg), 'draw': d,
                                       'what': 'accepted configuration but gen_sample raised %r' % (arr,)})
+                # still compare the constructor with the model (an accepted configuration that cannot be sampled)
+                terms.append('(mkQ %s [] (Some ([], 0%%nat, [])) false)' % head)
+                metas.append(('square-unsampleable', repr(base)))
                 break
             for b in check_square(cfg, arr):
                 res.witnesses.append({'key': 'square:%r' % (base,), 'kind': 'square', 'cfg': repr(cfg), 'draw': d, 'what': b,
                                       'sample': repr(np.asarray(arr).tolist())})
             res.nontrivial.add(('square', repr(base), d))
-            if d >= (n_coq if dim <= 3 else n_coq // 2):
+            if d >= (n_coq if dim <= 3 or quick else n_coq // 2):
                 continue
             calls = rec.calls[n0:]
             passes = split_passes(calls, (dim, dim), cplx)
